@@ -377,16 +377,12 @@ Definition chain_data_check (f g : func) (ch : list (list N)) (db da : list N) :
                     end) (seq 0 (List.length f)).
 Definition flip_data_check (f : func) (db da : list N) : bool := list_eqb N.eqb db da.
 Definition tail_data_check (f : func) (al : list N) (db da : list N) : bool := list_eqb N.eqb (map (alias_of al) db) da.
-(* a table entry must not be routed through a forwarding block: the table still holds the old label *)
+(* a table entry leads where the djmp's edge to it leads: to the same block, or to the forwarding block inserted on that
+   edge (CFGNormalization retargets the jump table together with the djmp's label operand) *)
 Definition split_data_check (F : list N) (f g : func) (db da : list N) : bool :=
-  list_eqb N.eqb db da &&
   forallb (fun i => let b := N.of_nat i in
                     match djmp_of (nth_block f b), last_inst (nth_block g b) with
-                    | Some Tb, Some Ta =>
-                      forall2b (fun tb ta => negb (memN tb db) ||
-                                             (N.eqb ta tb && N.ltb tb (N.of_nat (List.length f)) &&
-                                              phis_in_ok (nth_block f tb) (nth_block g tb) b b))
-                               (labels_of (i_args Tb)) (labels_of (i_args Ta))
+                    | Some Tb, Some Ta => table_ok Tb Ta (fun ta tb => split_edge_ok F f g b ta tb) db da
                     | Some _, None => false
                     | None, _ => true
                     end) (seq 0 (List.length f)).
